@@ -1,8 +1,8 @@
 (* Properties/C13.v — the index is safe under concurrent inserts, removals and searches.
-   PARTIAL.  Proved over all interleavings: the three protocol-level facts the concurrent design rests on.  The absence
-   of data races in the Go code, of panics and of deadlocks is explored by the race-detector harness (exploration, not
-   proof); the structural invariant at quiescence is the sequential one of C01 and is checked on the quiescent dumps. *)
-From Verif Require Import Base.Prelude Proto.Conc Proto.ConcProofs Generated.Facts.
+   PARTIAL.  Proved over all interleavings: the three protocol-level facts the concurrent design rests on, and the
+   lock discipline (exclusion, no deadlock, bounded schedules).  The absence of data races and of panics in the Go
+   code is explored by the race-detector harness (exploration, not proof); the structural invariant at quiescence is the sequential one of C01 and is checked on the quiescent dumps. *)
+From Verif Require Import Base.Prelude Proto.Conc Proto.ConcProofs Proto.Locks Proto.LocksProofs Generated.Facts.
 
 Definition fb13 (f : fact bool) : bool := match f with Known b => b | Unrecognised _ => false end.
 Definition reader_skips_dead_entry_now : bool := fb13 search_skips_dead_entry && fb13 search_skips_deleted.
@@ -10,7 +10,9 @@ Definition cas_loop_now : bool := fb13 insert_promotes_by_cas_loop.
 
 Lemma C13_facts_ok :
   membership_under_shard_lock = Known true /\ search_skips_dead_entry = Known true /\ search_skips_deleted = Known true /\
-  insert_promotes_by_cas_loop = Known true /\ handover_repeats_while_tombstoned = Known true /\ handover_skips_deleted = Known true.
+  insert_promotes_by_cas_loop = Known true /\ handover_repeats_while_tombstoned = Known true /\ handover_skips_deleted = Known true /\
+  (* no critical section of package index acquires a second lock or leaves its region with the lock held *)
+  index_locks_not_nested = Known true.
 Proof. repeat split; reflexivity. Qed.
 
 (* (A) insert / remove outcomes are linearizable as operations on a set: every call takes effect in one critical
@@ -40,6 +42,30 @@ Theorem C13_promotion_final : forall lvl vs e0 sched,
   Forall (fun t => snd t = TDone) (p_threads s) -> Forall (fun t => lvl (fst t) <= lvl (p_entry s)) (p_threads s).
 Proof. exact promotion_final. Qed.
 
+
+(* (D) the locks: shard locks around the id maps, one read/write lock per vertex and level.  With every critical section
+   finite and acquiring no further lock (the fact above), for any number of goroutines, any sequence of critical
+   sections and lock-free work in each, any set of locks, with or without sync.RWMutex's writer preference, and every
+   schedule: a lock held for writing has exactly one holder; unless every goroutine has finished some goroutine can
+   take a step (no deadlock); and no schedule is longer than the total work (every goroutine finishes, whatever the
+   scheduler does).  Not covered: blocking other than on these locks (there is none in package index), and the
+   finiteness of the code inside a critical section (loops over one edge map or shard). *)
+Theorem C13_locks_safe_and_live : forall wpref progs sched ts, run wpref (start progs) sched = Some ts ->
+  excl ts /\ length sched <= cost (start progs) /\
+  (existsb (fun t => negb (finished t)) ts = true -> exists i, step wpref ts i <> None).
+Proof. exact locks_safe_and_live. Qed.
+(* the model runs: a writer and two readers of lock 0 and a writer of lock 1, under writer preference; an interleaved
+   schedule in which goroutine 1 has to wait for the writer finishes everybody within the bound *)
+Example C13_locks_run :
+  let progs := [[Crit 0 MW 2; Work 1]; [Crit 0 MR 1; Crit 1 MW 0]; [Work 0; Crit 0 MR 3]] in
+  cost (start progs) = 21 /\
+  step true (fst (match run true (start progs) [0] with Some ts => (ts, 0) | None => ([], 0) end)) 1 = None /\
+  (exists sched ts, length sched = 17 /\ run true (start progs) sched = Some ts /\ forallb finished ts = true).
+Proof.
+  split; [reflexivity|]. split; [vm_compute; reflexivity|].
+  exists [0; 2; 0; 0; 0; 1; 2; 1; 2; 1; 2; 1; 2; 1; 2; 0; 0]%nat. eexists. split; [reflexivity|]. split; [vm_compute; reflexivity|reflexivity].
+Qed.
+
 (* regressions *)
 Theorem C13_dead_entry_refuted :
   let s := fold_left (sapply false) [SW (WTomb 1); SR RInv; SR RLoad; SR RTakeEntry; SR RRet; SW (WHand 1 (Some 2))] (s_init (Some 1)) in
@@ -56,3 +82,4 @@ Print Assumptions C13_cs_order_respects_real_time.
 Print Assumptions C13_count_matches.
 Print Assumptions C13_search_never_returns_removed.
 Print Assumptions C13_promotion_monotone.
+Print Assumptions C13_locks_safe_and_live.
